@@ -246,12 +246,14 @@ def handle (line : String) : String :=
         if vs.length != flat.length then s!"DIFF tree-size model={flat.length} go={vs.length}" else
         let h := header raw l
         -- 1. every modelled detector agrees with the real verdict on this header
-        let bad := (flat.zip vs).filterMap fun (i, v) =>
+        -- (the model's verdict of every node, computed once: also what the closed model's walk consults)
+        let mvs : List (Option Bool) := flat.map fun i => Cust.detEval (fun _ _ _ => false) i.det h l
+        let bad := ((flat.zip vs).zip mvs).filterMap fun ((i, v), mv) =>
           let modelled := match i.det with
             | .custom c => (Cust.customModel c).isSome
             | _ => true
           if !modelled then none else
-          let m := showOB (Cust.detEval (fun _ _ _ => false) i.det h l)
+          let m := showOB mv
           let g := if v == 'T' then "T" else if v == 'F' then "F" else "PANIC"
           if m == g then none else some s!"{i.detName}:model={m},go={g}"
         -- 2. the walk over the real verdicts reproduces the real result
@@ -324,14 +326,23 @@ def handle (line : String) : String :=
         -- the CLOSED model: the whole of Detect computed from the bytes alone (no verdict, token or instruction
         -- taken from the implementation), against the implementation's chain and result string
         let dcl :=
-          let r := Closed.detect raw l
-          let mc := chainStr r.chain
-          let ms := match r.chain with
+          -- = Closed.detect raw l, unfolded so that the verdicts computed above are reused
+          let midx := flat.zip mvs
+          let macc : Info → Bool := fun i =>
+            match midx.find? (fun p => p.1.name == i.name) with
+            | some (_, v) => v == some true
+            | none => false
+          let cchain := (T.walk macc).reverse
+          let ccs := match cchain with
             | [] => []
-            | leaf :: _ => MT.withCharset leaf.mime r.charset
+            | leaf :: _ => charsetFor Closed.ext leaf.mime h
+          let mc := chainStr cchain
+          let ms := match cchain with
+            | [] => []
+            | leaf :: _ => MT.withCharset leaf.mime ccs
           if mc != goChain then s!"DIFF closed-detect chain model={mc}"
-          else if (HtmlTok.startTags h).isNone || !isAsciiBytes r.charset then ""
-          else if chainStr r.chain ++ " " ++ bhex ms == goRes then "" else s!"DIFF closed-detect string model={bhex ms}"
+          else if (HtmlTok.startTags h).isNone || !isAsciiBytes ccs then ""
+          else if mc ++ " " ++ bhex ms == goRes then "" else s!"DIFF closed-detect string model={bhex ms}"
         let all := [d1, d2, dxi, dht, dcl, sp, sp8, sp11].filter (· != "")
         if all.isEmpty then "OK" else String.intercalate " ; " all
       | _, _, _, _ => "BAD args"
